@@ -57,8 +57,8 @@ Definition rtarget (op : rop) : option nat :=
   match op with
   | RNew d _ _ _ _ | RNewRR d _ _ _ _ _ | RImm d _ | RToRdataset d _ | RCopy d _ | RFunc _ d _ _
   | RFromList d _ _ _ => Some d
-  | RAdd r _ _ | RUpdateTtl r _ | RRemove r _ | RDiscard r _ | RPop r | RClear r
-  | RInpl _ r _ | RDelItem r _ => Some r
+  | RAdd r _ _ | RUpdateTtl r _ | RUpdateTtlText r _ | RAddText r _ _ | RRemove r _ | RDiscard r _
+  | RPop r | RClear r | RInpl _ r _ | RDelItem r _ => Some r
   | RPred _ _ _ | RMatch _ _ _ _ | RFullMatch _ _ _ _ _ _ | RLen _ | RIter _ | RContains _ _
   | RGet _ _ => None
   end.
@@ -169,6 +169,17 @@ Definition gstep (st : list rds) (h : list (list Z)) (op : rop) : list (list Z) 
       match nth_error st r with
       | Some s => if is_mutable s then set_nth h r (merge1 s (hget h r) t) else h
       | None => h
+      end
+  | RUpdateTtlText r txt =>
+      match nth_error st r, TokM.ttl_from_text txt with
+      | Some s, Ok t => if is_mutable s then set_nth h r (merge1 s (hget h r) t) else h
+      | _, _ => h
+      end
+  | RAddText r x txt =>
+      match nth_error st r, TokM.ttl_from_text txt with
+      | Some s, Ok t => if is_mutable s && (cls s =? rcls x) && (typ s =? rtyp x)
+                        then set_nth h r (merge1 s (hget h r) t) else h
+      | _, _ => h
       end
   | RInpl w r o =>
       match nth_error st r, nth_error st o with
@@ -429,6 +440,33 @@ Proof.
     destruct (nth_error st r) as [s|] eqn:Es; cbn [fst]; [|exact H].
     unfold is_mutable. destruct (kd s); cbn [fst]; try exact H;
       (apply ttl_inv_set; [exact H|]; apply ttl_ok_merge1; eapply ttl_inv_get; eassumption).
+  - (* RUpdateTtlText *)
+    destruct (nth_error st r) as [x|] eqn:Es; cbn [fst]; [|exact H].
+    unfold is_mutable. destruct (kd x); cbn [fst];
+      destruct (TokM.ttl_from_text s) as [t| |]; cbn [fst]; try exact H;
+      (apply ttl_inv_set; [exact H|]; apply ttl_ok_merge1; eapply ttl_inv_get; eassumption).
+  - (* RAddText *)
+    destruct (nth_error st r) as [s0|] eqn:Es; cbn [fst]; [|exact H].
+    unfold is_mutable. destruct (kd s0) eqn:Ek; cbn [fst andb];
+      try (destruct (TokM.ttl_from_text s); exact H).
+    + destruct ((cls s0 =? rcls x) && (typ s0 =? rtyp x)) eqn:Ec.
+      * apply andb_true_iff in Ec as [E1 E2]. rewrite E1, E2. cbn [negb orb].
+        destruct (TokM.ttl_from_text s) as [t| |]; cbn [fst]; try exact H.
+        unfold upd. cbn [fst]. apply ttl_inv_set; [exact H|].
+        pose proof (ttl_ok_merge1 s0 (hget h r) t (ttl_inv_get st h r s0 H Es)) as Hm.
+        eapply ttl_ok_fields; [|exact Hm]. rewrite radd_ttl, E1, E2. reflexivity.
+      * assert (Hn : negb (cls s0 =? rcls x) || negb (typ s0 =? rtyp x) = true).
+        { destruct (cls s0 =? rcls x), (typ s0 =? rtyp x); cbn in *; congruence. }
+        rewrite Hn. cbn [fst]. destruct (TokM.ttl_from_text s); exact H.
+    + destruct ((cls s0 =? rcls x) && (typ s0 =? rtyp x)) eqn:Ec.
+      * apply andb_true_iff in Ec as [E1 E2]. rewrite E1, E2. cbn [negb orb].
+        destruct (TokM.ttl_from_text s) as [t| |]; cbn [fst]; try exact H.
+        unfold upd. cbn [fst]. apply ttl_inv_set; [exact H|].
+        pose proof (ttl_ok_merge1 s0 (hget h r) t (ttl_inv_get st h r s0 H Es)) as Hm.
+        eapply ttl_ok_fields; [|exact Hm]. rewrite radd_ttl, E1, E2. reflexivity.
+      * assert (Hn : negb (cls s0 =? rcls x) || negb (typ s0 =? rtyp x) = true).
+        { destruct (cls s0 =? rcls x), (typ s0 =? rtyp x); cbn in *; congruence. }
+        rewrite Hn. cbn [fst]. destruct (TokM.ttl_from_text s); exact H.
   - (* RRemove *)
     destruct (nth_error st r) as [s|] eqn:Es; cbn [fst]; [|exact H].
     destruct (kd s); cbn [fst]; try exact H;
@@ -558,6 +596,8 @@ Definition op_literals (op : rop) : list Z :=
   | RFromList _ _ t _ => [t]
   | RAdd _ _ (Some t) => [t]
   | RUpdateTtl _ t => [t]
+  | RUpdateTtlText _ txt | RAddText _ _ txt =>
+      match TokM.ttl_from_text txt with Ok t => [t] | _ => [] end
   | _ => []
   end.
 
@@ -593,7 +633,8 @@ Proof.
            end; try exact H;
     try (eapply hist_assign; [exact H| |eassumption]);
     try (apply Forall_set_nth; [exact H|]);
-    cbn [op_literals]; unfold merge1, mergeh; intros tq Ht;
+    cbn [op_literals]; repeat match goal with E : TokM.ttl_from_text _ = _ |- _ => rewrite E; clear E end;
+    unfold merge1, mergeh; intros tq Ht;
     repeat match goal with
            | Ht : In _ (if ?c then _ else _) |- _ => destruct c
            | Ht : In _ (_ ++ _) |- _ => apply in_app_iff in Ht; destruct Ht
@@ -601,7 +642,8 @@ Proof.
            | Ht : In _ [] |- _ => contradiction
            end;
     try (apply in_app_iff; right; left; reflexivity);
-    try (eapply Hg; eassumption).
+    try (eapply Hg; eassumption);
+    try (apply in_app_iff; left; eapply hist_get; [exact H0|eassumption]).
 Qed.
 
 Theorem ttl_literals ops : forall st h lits,
